@@ -353,9 +353,9 @@ def rule_r5(ctx: Ctx) -> None:
 
 
 def run(ctx: Ctx) -> None:
-    rule_r1_r2(ctx)
-    rule_r3(ctx)
-    rule_r4(ctx)
-    rule_r5(ctx)
+    ctx.attempt(rule_r1_r2, ctx)
+    ctx.attempt(rule_r3, ctx)
+    ctx.attempt(rule_r4, ctx)
+    ctx.attempt(rule_r5, ctx)
     ctx.assume("struct.pack/unpack implement IEEE 754 binary16/32/64 (trusted stdlib); write_bits/read_bits are LSB-first (bit arithmetic not decided here; offset accounting is C07.R3)")
     ctx.undecided("value round trip for all (type, value) pairs; IEEE-754 / two's-complement / LSB-first bit patterns; equivalence of the aligned fast path and the bit-wise slow path; byte equality of the relaxed input forms")
